@@ -10,7 +10,7 @@
    and the runtime flavours are observed, not modelled (partial). *)
 From MC Require Import Model.Base Model.Generated Model.Store Model.Memc Model.Codec Model.Handler
   Model.Conn Model.Run Model.Server Model.Config Spec.Exec
-  Proofs.StoreLemmas Proofs.SetLemmas Proofs.Effects Proofs.PPolicy Proofs.PC20.
+  Proofs.StoreLemmas Proofs.SetLemmas Proofs.Effects Proofs.PPolicy Proofs.PC20 Model.Listeners Proofs.PC17m.
 
 (* the configured item size limit (below 4 GiB) and connection limit are the ones enforced *)
 Theorem C20_limits_enforced : forall a,
@@ -35,6 +35,14 @@ Theorem C20_policy_transparent : forall L req s,
   calm L s -> same (handle_request req s) (handle_request req (strip s)).
 Proof. exact policy_transparent. Qed.
 Print Assumptions C20_policy_transparent.
+
+(* the configured connection limit is the one enforced whatever the number of accept
+   loops the runtime configuration starts (current-thread: one per thread, clones of one
+   server; multi-thread: one): for any history of connections over any listeners *)
+Theorem C20_limit_holds_for_any_listeners : forall a es,
+  N.of_nat (length (ms_active (ms_run (new_mserver (e_connection_limit (effective_of a))) es))) <= a_connection_limit a.
+Proof. intros a es. exact (m_at_most_limit (a_connection_limit a) es). Qed.
+Print Assumptions C20_limit_holds_for_any_listeners.
 
 Example C20_nonvacuous :
   let a := mkArgs 11211 1 1024 67108864 1048576 8 CurrentThread PolicyRandom in
